@@ -32,7 +32,7 @@ var ParamKinds = map[string][]string{
 var countTexts = []string{"0", "1", "2", "3", "4", "5", "7", "10", "-1", "-2", "1.0", "2.0", "1e1", "1e0", "20e-1", "0.0", "-0", "1.5", "0.5", "2.000001", "-0.5", "1e-1", "9223372036854775807", "9223372036854775808", "-9223372036854775808", "1e19", "1e30", "4294967296", "2147483648", "100", "1000", "1000001", "1048577", "65537", "1E0", "2E+0", "10E-1", "15E-1", "25E-1", "1E1"}
 
 func numStrs() []string {
-	return []string{"1", "1.0", "-2.5", "1e3", "0", "-0", "1E2", "1e+2", "0.1", " 1", "1 ", "+1", "01", ".5", "1.", "1e", "abc", "", "null", "true", "NaN", "Infinity", "-Infinity", "inf", "0x10", "1_000", "١", "1e400", "12345678901234567890123456789012345678901234567890", "--1", "1..2", "nan"}
+	return []string{"1", "1.0", "-2.5", "1e3", "0", "-0", "1E2", "1e+2", "0.1", " 1", "1 ", "+1", "01", ".5", "1.", "1e", "abc", "", "null", "true", "NaN", "Infinity", "-Infinity", "inf", "0x10", "1_000", "1e1_0", "0e0_0", "1e-0_1", "1E+0_0", "1_0e1", "1e0_", "١", "1e400", "12345678901234567890123456789012345678901234567890", "--1", "1..2", "nan"}
 }
 
 // FnArgs draws the argument values for a call: argument i has the fitting
